@@ -167,3 +167,11 @@ impl VoterMap {
     #[verifier::external_body] pub fn insert(&mut self, k: Voter, v: VotesOfVoter) -> (r: Option<VotesOfVoter>) ensures final(self).voters() == old(self).voters().push(k) { unimplemented!() }
 }
 pub struct VotingProcedures(pub VoterMap);
+
+// ---- NoneOrEmpty for VotingProcedures (C03: key 19 is written only when there is at least one vote)
+impl VoterMap {
+    /// every voter's vote map is empty (`self.0.values().all(|v| v.is_empty())`; R-valuesall)
+    pub uninterp spec fn all_votes_empty(&self) -> bool;
+    #[verifier::external_body] pub fn is_empty(&self) -> (r: bool) ensures r == (self.voters().len() == 0) { unimplemented!() }
+    #[verifier::external_body] pub fn values_all_empty_(&self) -> (r: bool) ensures r == self.all_votes_empty() { unimplemented!() }
+}
